@@ -762,7 +762,7 @@ class Plane(Generic[LTComponentT]):
         return "<Plane objs=%r>" % list(self)
 
     def __iter__(self) -> Iterator[LTComponentT]:
-        return (obj for obj in self._seq if obj in self._objs)
+        return (obj for obj in uniq(self._seq) if obj in self._objs)
 
     def __len__(self) -> int:
         return len(self._objs)
@@ -788,6 +788,8 @@ class Plane(Generic[LTComponentT]):
 
     def add(self, obj: LTComponentT) -> None:
         """Place an object."""
+        if obj in self._objs:
+            return
         for k in self._getrange((obj.x0, obj.y0, obj.x1, obj.y1)):
             if k not in self._grid:
                 r: List[LTComponentT] = []
